@@ -393,6 +393,25 @@ func ops(m *model, k int) (out []struct {
 		add(step{Op: "long_file_two_rebuilds_drop_column", SQL: body,
 			Expect: []expect{{"DS103", "b", []string{"CREATE TABLE `new_t`", "ALTER TABLE `t` DROP COLUMN `b`"}}}}, n)
 	}
+	// a table literally named new_u is created (not a rebuild: no copy, no rename follows), more tables
+	// are created, and only then u is dropped: the drop is a real one.
+	if m.table("u") != nil && m.table("new_u") == nil {
+		n := m.clone()
+		for i, x := range n.Tables {
+			if x.Name == "u" {
+				n.Tables = append(n.Tables[:i], n.Tables[i+1:]...)
+				break
+			}
+		}
+		var body []string
+		for _, name := range []string{"new_u", fmt.Sprintf("na%d", k), fmt.Sprintf("nb%d", k), fmt.Sprintf("nc%d", k)} {
+			t := &table{Name: name, Cols: []col{{"id", "integer", ""}}, Idx: map[string]string{}}
+			n.Tables = append(n.Tables, t)
+			body = append(body, createSQL(t, name))
+		}
+		body = append(body, "DROP TABLE `u`")
+		add(step{Op: "create_new_prefixed_table_then_drop", SQL: body, Expect: []expect{{"DS102", "u", []string{"DROP TABLE `u`"}}}}, n)
+	}
 	// temporary table within one file
 	add(step{Op: "temp_table", SQL: []string{fmt.Sprintf("CREATE TABLE `tmpt%d` (`id` integer)", k), fmt.Sprintf("DROP TABLE `tmpt%d`", k)}}, m.clone())
 	return
